@@ -80,6 +80,9 @@ class TranscriptPointer(GTFPointer):
         tx_model = TranscriptAnnotationModel()
 
         for line in lines:
+            if line.startswith('#'):
+                # comment lines may sit between the records of a transcript
+                continue
             record = GtfIO.line_to_seq_feature(line)
             feature = record.type.lower()
             if feature not in GTF_FEATURE_TYPES:
